@@ -224,6 +224,8 @@ class Alg:
         p = b.n
         if p.is_zero():
             raise ZeroDivisionError('symbolic division by zero')
+        if getattr(self, 'div_log', None) is not None and not p.is_const():
+            self.div_log.append(b)      # every divisor, before any cancellation (pole checks)
         if len(p.t) == 1:
             (m, c), = p.t.items()
             md = {}
